@@ -32,6 +32,8 @@ pub fn worker(case: &Value) -> Value {
             let offence = match (&o.end, o.mon.as_ref().and_then(|m| m.type_violation.clone())) {
                 (_, Some((pc, what))) => Some(format!("type-monitor|{}", label.split(':').next().unwrap_or("")) + &format!("||a variable holds a value of another type, out of range or not finite (first seen at instruction {}): {}", pc, what)),
                 (vcore::outcome::End::Normal | vcore::outcome::End::RuntimeError { .. }, None) => None,
+                // a literal that has no value of any type is rejected before the program runs: nothing is stored
+                (vcore::outcome::End::ParseError { kind, .. } | vcore::outcome::End::LintError { kind, .. }, None) if kind == "Overflow" => None,
                 (other, None) => Some(format!("not-a-basic-outcome|{}||the run ended with {}", label.split(':').next().unwrap_or(""), other.class())),
             };
             match offence {
@@ -99,6 +101,15 @@ fn monitor_programs() -> Vec<(String, String, String)> {
                 );
                 out.push((format!("built-in result stored: {} -> {} route {}", call, sfx, route), text, String::new()));
             }
+        }
+    }
+    // literals with a fraction that lie beyond the range of their type: stored directly, through DATA / READ, as a CONST
+    for (lit, what) in [(format!("{}.5", "9".repeat(40)), "SINGLE literal of 40 digits"), (format!("{}.5#", "9".repeat(400)), "DOUBLE literal of 400 digits"), (format!("1{}.0", "0".repeat(39)), "SINGLE literal 1e39"), (format!("{}.5#", "9".repeat(40)), "DOUBLE literal of 40 digits")] {
+        for (sfx, _) in types {
+            out.push((format!("{} -> {} by assignment", what, sfx), format!("T{} = {}\nU{} = T{} + 0\nPRINT \"ok\"\n", sfx, lit, sfx, sfx), String::new()));
+            out.push((format!("{} -> {} by READ", what, sfx), format!("DATA {}\nREAD T{}\nU{} = T{} + 0\nPRINT \"ok\"\n", lit, sfx, sfx, sfx), String::new()));
+            out.push((format!("{} -> {} through a CONST", what, sfx), format!("CONST K = {}\nT{} = K\nU{} = T{} + 0\nPRINT \"ok\"\n", lit, sfx, sfx, sfx), String::new()));
+            out.push((format!("{} -> {} as an argument", what, sfx), format!("DECLARE SUB S (X{})\nS {}\nPRINT \"ok\"\nSUB S (X{})\nY{} = X{}\nEND SUB\n", sfx, lit, sfx, sfx, sfx), String::new()));
         }
     }
     // INPUT, INPUT # and READ of texts that do not denote a finite number of the target type
